@@ -25,6 +25,7 @@ from ..ref.engine import EVENT_CAP, TICK
 from .common import beh_of
 
 KINDS = ["a", "b", "c"]
+VALS = st.one_of(st.integers(0, 9), st.integers(0, 9), st.integers(0, 9), st.none())   # resolved values; None is a legal value
 
 
 # ------------------------------------------------------------------------------ strategies
@@ -61,8 +62,8 @@ def steps_strategy(n, nfut, depth, emits, max_steps=5, futures=True, combinators
     alts = [delay, delay, delayfx]
     if futures and nfut:
         alts.append(st.tuples(st.just("wait"), st.integers(0, nfut - 1)).map(list))
-        alts.append(st.tuples(st.just("resolve"), st.integers(0, nfut - 1), st.integers(0, 9)).map(list))
-        alts.append(st.tuples(st.just("resolve"), st.integers(0, nfut - 1), st.integers(0, 9)).map(list))
+        alts.append(st.tuples(st.just("resolve"), st.integers(0, nfut - 1), VALS).map(list))
+        alts.append(st.tuples(st.just("resolve"), st.integers(0, nfut - 1), VALS).map(list))
         if combinators and nfut >= 2:
             alts.append(st.tuples(st.just("waitc"), tree_strategy(nfut)).map(list))
             if heavy:
@@ -86,7 +87,7 @@ def program_strategy(draw, tier="quick", procs=True, futures=True, combinators=T
     imm = st.fixed_dictionaries({
         "imm": st.lists(emits, max_size=3),
         "shape": st.sampled_from(["none", "one", "list", "list"]),
-        "resolve": st.lists(st.tuples(st.integers(0, max(0, nfut - 1)), st.integers(0, 9)).map(list),
+        "resolve": st.lists(st.tuples(st.integers(0, max(0, nfut - 1)), VALS).map(list),
                             max_size=2 if nfut else 0),
         "cancel": st.lists(st.integers(0, 2), max_size=1 if cancels else 0),
     })
